@@ -19,6 +19,20 @@ def run(ctx):
     prefix = ctx.work + "/dates"
     ctx.cvh(["drive", "dates", "--out", prefix, "--chunks", chunks, "--mode", ctx.pick("windows", "full")])
 
+    import json, os
+    known = ctx.work + "/known.ndjson"
+    with open(known, "w") as f:
+        f.write(json.dumps({"key": "__none__"}) + "\n")
+        for k in ctx.known:
+            f.write(json.dumps({"key": k}) + "\n")
+    os.environ["KNOWN"] = known
+    # helper events that disagree are findings (listed) or violations (not listed)
+    for line in open(prefix + ".0.ndjson"):
+        if '"e":"helper"' in line:
+            ev = json.loads(line)
+            if not ev["agree"]:
+                ctx.fail(ev["key"], {"kind": "helper", "event": ev})
+
     def val(i):
         return i, ctx.validate_trace("date", "Trace_ExcelDate", "Trace_ExcelDate.cfg", "%s.%d.ndjson" % (prefix, i),
                                      timeout=ctx.pick(900, 7000), xmx="3g", name="trace_dates_%d" % i)
